@@ -84,6 +84,27 @@ def rollback_rule(F, R, rid):
 
 
 
+def shadow_bookkeeping_rule(F, R, rid):
+    """every replacement of a name's slot in SymbolMap::add hands the previous slot to FreeList::add_shadowed
+    (shared by C06.S and C19.g): the previous index returned by each map.insert must flow into add_shadowed"""
+    add = F.one(r"^steel::compiler::map::\{impl SymbolMap\}::add$")
+    ins = [i for i, b in add.calls() if re.search(r"HashMap<K,V,S[^}]*\}::insert$|::insert$", b["callee"])
+           and any("InternedString" in t for t in b["targs"])]
+    sh = add.call_blocks(r"\{impl FreeList\}::add_shadowed$")
+    R.inst(rid, "SymbolMap::add records shadowed slot", bool(sh) and bool(ins),
+           "SymbolMap::add no longer calls FreeList::add_shadowed for the previous index of a redefined name", add.loc(), sample=True)
+    for i in ins:
+        d = re.match(r"_\d+", add.blocks[i].get("dest") or "")
+        flows = False
+        if d:
+            t = lib.tainted_locals(add, [d.group(0)])
+            flows = any(any(x in t for x in re.findall(r"_\d+", a)) for s_ in sh for a in add.blocks[s_]["args"][1:])
+        R.inst(rid, "SymbolMap::add / previous slot of a redefined name reaches add_shadowed", flows,
+               "SymbolMap::add replaces the slot of an existing name (map.insert at line %s) and drops the previous slot "
+               "index instead of recording it with FreeList::add_shadowed: the old global keeps its value alive forever "
+               "and its slot is never reclaimed" % add.blocks[i]["line"], add.loc(add.blocks[i]["line"]), sample=True)
+
+
 def run(F, R, ctx):
     R.rule("C06.T1", "GIDX_C ⊆ GIDX_V: every opcode that the index interner (DebruijnIndicesInterner) stamps with a "
                      "SymbolMap index is executed by an interpreter arm that uses the payload as a global-slot index")
@@ -167,13 +188,4 @@ def run(F, R, ctx):
         R.inst("C06.S", "%s writes FreeList.free_list" % lib.short_name(n), bool(allowed.search(n)),
                "%s mutates the global-slot free list; only the recycler may add slots and only pop_next_free may take "
                "them" % lib.short_name(n), F.fns[n].loc(), sample=True)
-    add = F.one(r"^steel::compiler::map::\{impl SymbolMap\}::add$")
-    R.inst("C06.S", "SymbolMap::add records shadowed slot", bool(add.call_blocks(r"\{impl FreeList\}::add_shadowed$")),
-           "SymbolMap::add no longer calls FreeList::add_shadowed for the previous index of a redefined name",
-           add.loc())
-    ins = add.call_blocks(r"::insert$")
-    sh = add.call_blocks(r"\{impl FreeList\}::add_shadowed$")
-    if ins and sh:
-        dom = add.dominators()
-        R.inst("C06.S", "SymbolMap::add / add_shadowed after map.insert", all(any(i in dom[s] for i in ins) for s in sh),
-               "add_shadowed is not dominated by map.insert (previous index unknown)", add.loc())
+    shadow_bookkeeping_rule(F, R, "C06.S")
